@@ -1,6 +1,7 @@
 ---------------------------- MODULE StorageCrashTrace ----------------------------
 (* Monitor for C19: one line per (scenario, crash point): what a fresh store on the same directory read after the child
-   process had been killed there.  reads = "old" | "new" | "other" *)
+   process had been killed there.  reads = "old" | "new" | "other";
+   follow = "next" when a short, a long, an empty and a medium value written to the same key afterwards were each read back exactly *)
 EXTENDS Naturals, Sequences, FiniteSets, TLC, Json, IOUtils
 VARIABLES l
 Trace == ndJsonDeserialize(IOEnv.TRACE)
@@ -12,6 +13,8 @@ Next == /\ l <= Len(Trace)
            /\ Report("Completed", ~e.killed => (e.reads = "new" \/ e.op = "transport"))
            /\ Report("OthersUntouched", e.others_ok)
            /\ Report("NoTempListed", ~e.temp_listed)
+           \* phase "next" of StorageCrash.tla: complete writes of other values after the restart are read back exactly
+           /\ Report("FollowUp", e.follow = "next")
         /\ l' = l + 1
 Accepted == TLCGet("stats").diameter = Len(Trace) + 1
 =======================================================================
